@@ -178,7 +178,7 @@ def run_mutant(prop, fname, text, a, b, new):
         env = dict(os.environ, VERIF_REPO=root)
         try:
             p = subprocess.run([os.path.join(HERE, 'vcheck'), prop, '--tier', 'quick', '--no-evidence'], env=env,
-                               capture_output=True, text=True, timeout=1500)
+                               capture_output=True, text=True, timeout=int(os.environ.get('AUTOMUTATE_CHECK_TIMEOUT', '420')))
         except subprocess.TimeoutExpired:
             return 'check-timeout', ''
         lines = [l for l in p.stdout.splitlines() if l.startswith('VIOLATION')]
